@@ -171,6 +171,23 @@ def check(run):
                 perm_case(run, specs, pm, fname, env)
         symmetry_case(run, specs, env)
         run.count(f"nshell={n}")
+    # shells of equal angular momentum on different centres (where a tie-break between the two shells of a pair can go wrong),
+    # generalized, listed in every order
+    for k in range(2 if quick else 8):
+        cs = []
+        ls = [(1, 1, 2), (2, 2, 1), (1, 2, 1, 2), (3, 3)][k % 4]
+        specs = [rand_shell(rng, l, cs, nprim=rng.randint(1, 2), nseg=1 + (i + k) % 2, sph=bool((i + k) % 3 == 0), exp_hi=20.0) for i, l in enumerate(ls)]
+        env = pf.default_env(rng, specs)
+        for pm in list(itertools.permutations(range(len(ls))))[1:: (1 if len(ls) <= 3 else 4)]:
+            for fname in ("point_charge", "nuclear_attraction", "overlap", "momentum", "angular_momentum", "moment"):
+                perm_case(run, specs, pm, fname, env)
+        symmetry_case(run, specs, env)
+        for i in range(len(specs)):
+            for j in range(i + 1, len(specs)):
+                if specs[i].l == specs[j].l:
+                    block_orientation_case(run, specs[i], specs[j])
+                    block_orientation_case(run, specs[j], specs[i])
+        run.count("equal angular momenta on different centres")
     # ERI: permutations and eight-fold symmetry on small bases
     for k in range(2 if quick else 8):
         cs = []
